@@ -90,6 +90,7 @@ class Profile:
         self.junk = 0.0            # probability of a junk call between two script steps
         self.react = 0.0           # probability that a notification triggers a re-entrant completion
         self.react_all = False     # ... also finished notifications (known finding D20)
+        self.item_bias = 0.0       # probability that a task input is an Item (indexable by loop variables)
         self.expr_depth = 2
         self.parloop_shapes = "safe"   # "safe": only shapes outside the known findings; "all"
         self.budget = 10           # bound on the number of service statements
@@ -220,7 +221,7 @@ class Gen:
         if not opts:
             return None
         idx = [o for o in opts if o[0] == "path" and any(e[0] == "iv" for e in o[2])]
-        if idx and r.random() < 0.6:
+        if idx and r.random() < (0.9 if self.p.item_bias else 0.6):
             return r.choice(idx)
         return r.choice(opts)
 
@@ -243,8 +244,11 @@ class Gen:
         for i in range(ntasks):
             ins = []
             if r.random() < self.p.params:
-                for j in range(r.randint(1, 2)):
-                    ins.append(("p%d" % j, ("plain", r.choice(["Data", "Inner", "Item", "Item", "number"]))))
+                for j in range(r.randint(1, 2) if not self.p.item_bias else r.randint(2, 3)):
+                    if r.random() < self.p.item_bias:
+                        ins.append(("p%d" % j, ("plain", "Item")))
+                    else:
+                        ins.append(("p%d" % j, ("plain", r.choice(["Data", "Inner", "Item", "Item", "number"]))))
             sigs.append({"name": "t%d" % (i + 1), "ins": ins})
         self.sigs = sigs
         tasks = []
